@@ -15,10 +15,15 @@ RULE = ("fmt: the whole accepted grammar fill{none,' ','*','0','x'} x align{none
         "accept/ValueError and the dict of _parse_format_spec; sim: random sync designs (1-4 input signals, nested "
         "If/Elif/Else and Switch/Case/Default, Print(Format) with 1-3 fields over sig/as_signed/as_unsigned/~/-, "
         "Assert/Assume/Cover with and without message, pos/neg-edge domain, sync reset, async reset excluded) driven "
-        "by hand over 6-16 steps; observable = captured stdout + exception class/text + step index. "
+        "by hand over 6-16 steps; observable = captured stdout + exception class/text + step index; "
+        "rtl: FORMAT parameter of the $print cell written by back.rtlil for Print(Format('x{' '{:spec}', sig)) over every "
+        "7th spec of the grammar (all in thorough) + random + fixed ('<05', '5c', brace and non-ASCII fills) vs the model "
+        "of emit_print's string building. "
         "non-trivial = accepted spec (fmt/spec) or non-empty output/stop (sim); distinct by case hash")
 MODELLED = ("Format._FORMAT_SPEC_PATTERN/_parse_format_spec, _StatementCompiler.emit_format/on_Print/on_Property, "
-            "value_to_string, _emit_switch conditions and edge_waker are modelled in coq/Model/Format.v; CPython's "
+            "value_to_string, _emit_switch conditions and edge_waker, and the FORMAT string building of "
+            "back/rtlil.py emit_print are modelled in coq/Model/Format.v; the reading of the FORMAT items "
+            "(rchunks_render) follows the Yosys manual and is not validated (no Yosys available); CPython's "
             "int.__format__/str.__format__/bytes.decode are modelled (py_format, utf8_decode) and validated against the "
             "real CPython on the whole accepted grammar; the equality simulator-text = str.format holds because the "
             "simulator calls str.format and is validated only; If/Switch lowering to nested conditions is done by the "
@@ -47,13 +52,16 @@ def classify(c):
         return f"fmt:{t or '-'}"
     if k == "spec":
         return "spec:" + c.get("cls", "?")
+    if k == "rtl":
+        t = c["spec"][-1:] if c["spec"] and c["spec"][-1:] in "bodxXcs" else "-"
+        return f"rtl:{t}"
     return "sim:" + c.get("cls", "?")
 
 
 def nontrivial(c, obs):
     if not isinstance(obs, list) or not obs:
         return False
-    if c["k"] in ("fmt", "spec"):
+    if c["k"] in ("fmt", "spec", "rtl"):
         return obs[0] == 1
     if obs[0] < 0 or len(obs) < 3:
         return False
@@ -167,6 +175,23 @@ def gen_cases(tier, seed):
     # --- stream 3: simulations
     for i in range(800 if not thorough else 12000):
         cases.append(_rand_sim(rng, thorough))
+    # --- stream 4: FORMAT parameter of the emitted RTLIL $print cell (emission only; no Yosys here)
+    k = 0
+    for fill_align, sign, alt, zero, width, grp, t in itertools.product(
+            fa, ["", "-", "+", " "], ["", "#"], ["", "0"], ["", "1", "5", "12"], ["", "_"], TYPES):
+        k += 1
+        if not thorough and k % 7 != seed % 7:
+            continue
+        w, sg = _shape_for(rng, t, bad=rng.random() < 0.03)
+        cases.append({"k": "rtl", "spec": fill_align + sign + alt + zero + width + grp + t, "w": w, "sg": sg})
+    for _ in range(600 if not thorough else 6000):
+        w, sg = _shape_for(rng, rng.choice(TYPES))
+        spec, t = _rand_spec(rng, valid=rng.random() < 0.9, shape=(w, sg), allow_brace=rng.random() < 0.1)
+        cases.append({"k": "rtl", "spec": spec, "w": w, "sg": sg})
+    for spec in ["<05", ">05", "=05", "05", "*<05", "5c", "<5c", ">5c", "*>5c", "{<5c", "{<4c", "}>3c", "{<5", "é<5", "é<5c",
+                 "5s", ">5s", "0=8_d", "08_x", "#d", "#_b", " 010_o", "+#12_X", "c", "s", "", "d", "<", "1c", "0"]:
+        for (w, sg) in [(8, False), (8, True), (16, False), (21, False)]:
+            cases.append({"k": "rtl", "spec": spec, "w": w, "sg": sg})
     rng.shuffle(cases)          # every shard gets the same mix of cheap and expensive cases
     return cases
 
@@ -403,7 +428,45 @@ def run_impl(c):
             except (OverflowError, UnicodeDecodeError):
                 out.append(-1)
         return out
+    if k == "rtl":
+        return _run_rtl(c)
     return _run_sim(c)
+
+
+_UNESC = {"n": "\n", "t": "\t", "r": "\r", "\"": "\"", "\\": "\\"}
+
+
+def _run_rtl(c):
+    """FORMAT parameter of the $print cell of  Print(Format("x{" "{:<spec>}", sig))  as written by back.rtlil"""
+    from amaranth.hdl import Shape, Signal, Format, Module, ClockDomain, Print
+    from amaranth.back import rtlil
+    sig = Signal(Shape(c["w"], c["sg"]), name="a")
+    m = Module()
+    m.domains.sync = ClockDomain("sync")
+    try:
+        m.d.sync += Print(_mk_format(Format, [["lit", "x{"], ["fld", None, c["spec"]]], lambda e: sig))
+    except Exception as e:
+        if type(e).__name__ == "ValueError":
+            return [-2]
+        return _exc_code(e)
+    try:
+        text = rtlil.convert(m, ports=[sig])
+    except NotImplementedError:
+        return [0]
+    lines = [l for l in text.split("\n") if l.strip().startswith("parameter \\FORMAT ")]
+    if len(lines) != 1:
+        raise AssertionError(f"{len(lines)} FORMAT parameters")
+    raw = lines[0].strip()[len("parameter \\FORMAT "):]
+    assert raw[0] == '"' and raw[-1] == '"', raw
+    raw, out, i = raw[1:-1], [], 0
+    while i < len(raw):
+        if raw[i] == "\\":
+            out.append(_UNESC[raw[i + 1]])
+            i += 2
+        else:
+            out.append(raw[i])
+            i += 1
+    return [1] + _codes("".join(out))
 
 
 def _run_sim(c):
@@ -551,6 +614,8 @@ def coq_term(c):
     k = c["k"]
     if k == "spec":
         return f"k_spec {_s(c['spec'])} {z(c['w'])} {blit(c['sg'])}"
+    if k == "rtl":
+        return f"k_rtl {_s(c['spec'])} {z(c['w'])} {blit(c['sg'])}"
     if k == "fmt":
         return f"k_fmt {_s(c['spec'])} {z(c['w'])} {blit(c['sg'])} {zlist(c['vs'])}"
     sigs = "[" + "; ".join(f"Sh {w} {blit(sg)}" for w, sg in c["sigs"]) + "]"
